@@ -223,18 +223,23 @@ class FJLexer(sly.Lexer):
     # noinspection PyTypeChecker
     def NUMBER(self, t: Token) -> Token:
         n = t.value
-        if len(n) >= 2:
-            # noinspection PyUnresolvedReferences
-            if n[0] == "'":
-                t.value = get_char_value_and_length(n[1:-1])[0]
-            elif n[1] in 'xX':
-                t.value = int(n, 16)
-            elif n[1] in 'bB':
-                t.value = int(n, 2)
+        try:
+            if len(n) >= 2:
+                # noinspection PyUnresolvedReferences
+                if n[0] == "'":
+                    t.value = get_char_value_and_length(n[1:-1])[0]
+                elif n[1] in 'xX':
+                    t.value = int(n, 16)
+                elif n[1] in 'bB':
+                    t.value = int(n, 2)
+                else:
+                    t.value = int(n)
             else:
-                t.value = int(n)
-        else:
-            t.value = int(t.value)
+                t.value = int(t.value)
+        except ValueError:
+            # python refuses to convert very long decimal literals (sys.get_int_max_str_digits())
+            syntax_error(self.lineno, f'the number literal is too long ({len(n)} digits): {n[:20]}...')
+            t.value = 0
         return t
 
     def STRING(self, t: Token) -> Token:
